@@ -576,6 +576,7 @@ class MultiIndexBackend(DataFrameSchemaBackend):
                         failure_cases,
                         schema_error.check,
                         schema_error.check_index,
+                        check_output=schema_error.check_output,
                         reason_code=schema_error.reason_code,
                     )
                 )
